@@ -150,7 +150,7 @@ pub fn u8ed_roundtrip() {
 }
 
 #[kani::proof]
-#[kani::unwind(10)]
+#[kani::unwind(34)]
 pub fn u256ed_roundtrip() {
     let limbs: [u64; 4] = kani::any();
     let v = U256ED::new(alloy::primitives::Uint::<256, 4>::from_limbs(limbs));
@@ -164,7 +164,7 @@ pub fn u256ed_roundtrip() {
 }
 
 #[kani::proof]
-#[kani::unwind(10)]
+#[kani::unwind(66)]
 pub fn u512ed_roundtrip() {
     let limbs: [u64; 8] = kani::any();
     let v = U512ED::new(alloy::primitives::Uint::<512, 8>::from_limbs(limbs));
